@@ -101,4 +101,11 @@ var checks = map[string]*Check{
 		Assumptions: commonAssumptions,
 		RealStub:    coreRealStub,
 	},
+	"C02": {
+		Legs:        []Leg{{World: "C02", Weight: 5}, {World: "C02/slow", Weight: 2}},
+		Probes:      []string{"body_at_least_4096", "escaped_target", "custom_fields"},
+		Rule:        "Raw TCP client (exact bytes, tape-chosen write sizes and pauses) -> real proxy -> real agent -> raw recording backend with an independent wire parser; 1..4 requests in flight; generated methods (incl. extension tokens), origin-form targets with escapes / dot segments / queries without ';', Host variants, 0..8 header fields with repeats, empty and long values, hop-by-hop fields, bodies 0..70 KiB (thorough ..5 MiB) by Content-Length or chunked; SimNet segmentation up to 1-byte segments. Input-dominated: the simulator contributes segmentation, pauses and concurrent traffic.",
+		Assumptions: commonAssumptions,
+		RealStub:    coreRealStub,
+	},
 }
